@@ -33,10 +33,12 @@ class Gen:
         self.rng, self.flavour, self.n = rng, flavour, 0
         self.written = flavour == "written"
 
-    def name(self, member=False):
-        """unique names; a member (child) name may contain dots: 'Parent.Child' splits at the FIRST dot"""
+    def name(self, member=False, top_dots=False):
+        """unique names; a member (child) name may contain dots: 'Parent.Child' splits at the FIRST dot.  A top-level
+        ParameterName may contain dots as well ('Max. current'): it is reached by index and by its plain name."""
         self.n += 1
-        w = self.rng.choice(WORDS + (["rev 1.2", "a.b", ".x"] if member else []))
+        w = self.rng.choice(WORDS + (["rev 1.2", "a.b", ".x"] if member else []) +
+                            (["Max. current", "Drive v1.2 data", "a.b"] if top_dots else []))
         return "%s %d" % (w, self.n)
 
     def sp_unsigned(self):
@@ -62,6 +64,10 @@ class Gen:
         if dt == BOOLEAN:
             return {"int": r.choice([0, 1]), "sp": "dec"}
         if dt in (REAL32, REAL64):
+            if not self.written and r.random() < 0.35:
+                # a whole number assigned as a Python int to a REAL object (var.default = -40)
+                f = r.choice([(0, 0), (-4, 1), (1, 0), (5, 0), (1, 2), (1, 3), (-1, 0), (12345, 0), (-25, 1)])
+                return {"flt": list(f), "as_int": True}
             f, texts = r.choice(FLOATS)
             return {"flt": list(f), "text": r.choice(texts)}
         if dt in (VISIBLE, UNICODE):
@@ -114,7 +120,7 @@ class Gen:
         r = self.rng
         kinds = ["var"] * 4 + ["rec"] * 2 + ["arr"] * 2 + (["compact"] * 2 + ["domain"] if self.written else [])
         kind = r.choice(kinds)
-        o = {"kind": kind, "index": index, "name": self.name()}
+        o = {"kind": kind, "index": index, "name": self.name(top_dots=True)}
         if self.written:
             o["sec_case"] = r.choice(["upper", "upper", "lower"])
             o["objtype_sp"] = r.choice(["hex", "dec", "hexl"])
@@ -133,7 +139,9 @@ class Gen:
             n0.update(access="ro" if not self.written else r.choice(["ro", "RO"]), default={"int": subs[-1], "sp": "dec"})
             for key in ("low", "high", "pvalue", "factor", "factor_text"): n0.pop(key, None)
             adt = r.choice(ALL_TYPES)
-            o["members"] = [n0] + [self.vdesc(sb, dt=adt if kind == "arr" else None) for sb in subs]
+            # an ARRAY usually has one element type, but the library does not enforce it: 40 % mixed-type arrays
+            mixed = kind == "arr" and r.random() < 0.4
+            o["members"] = [n0] + [self.vdesc(sb, dt=adt if kind == "arr" and not mixed else None) for sb in subs]
             if self.written:
                 o["sub_kw"] = r.choice(["sub", "sub", "Sub"])
                 o["sub_case"] = r.choice(["upper", "lower"])
